@@ -1203,8 +1203,17 @@ func (e *cenv) call(x *cCall) val {
 	}
 	if sf := g.w.cs.specs[name]; sf != nil {
 		var args []val
-		for _, a := range x.args {
-			args = append(args, e.tr(a))
+		for i, a := range x.args {
+			v := e.tr(a)
+			// a concrete value passed for an interface-typed parameter is boxed
+			if i < len(sf.params) && v.sort != "Iface" && v.sort != "nil" {
+				if pt, err := g.resolveType(sf.params[i].typ, g.w.allTPkg[sf.pkgPath]); err == nil {
+					if _, isI := pt.Underlying().(*types.Interface); isI {
+						v = e.convert(v, pt)
+					}
+				}
+			}
+			args = append(args, v)
 		}
 		return e.specCall(sf, args)
 	}
